@@ -138,6 +138,7 @@ var c06Quick = []Mix{
 	{Gen: "phrases", N: 0},
 	{Gen: "special5", N: 0},
 	{Gen: "tokseq", N: 3},
+	{Gen: "scale1", N: 288 << 10}, {Gen: "nulpad"},
 }
 
 var c06Thorough = []Mix{
@@ -155,6 +156,7 @@ var c06Thorough = []Mix{
 	{Gen: "phrases", N: 1},
 	{Gen: "special5", N: 1},
 	{Gen: "tokseq", N: 5},
+	{Gen: "scale1", N: 288 << 10}, {Gen: "scale", N: 70000}, {Gen: "nulpad"},
 }
 
 // C06 — SQLi pipeline conforms to the reference algorithm.
@@ -222,7 +224,7 @@ func c06() *core.Check {
 		},
 		One: func(w *core.Worker, c core.Case) {
 			s := c.In
-			if len(s) > 1<<17 {
+			if len(s) > 1<<19 {
 				return
 			}
 			w.Eval(1)
